@@ -705,6 +705,8 @@ func c03XPathExprs() []string {
 		"namespace-uri()", "boolean(a)", "boolean(1)", "concat(a,b)", "contains(a,'1')", "starts-with(a,'1')", "ends-with(a,'1')", "substring(a,1)", "substring(a,1,1)", "substring-before(a,'1')", "substring-after(a,'1')",
 		"string-length()", "string-length(a)", "normalize-space()", "normalize-space(a)", "translate(a,'1','2')", "reverse(a)", "matches(a,'1')", "replace(a,'1','2')", "lang('en')", "lower-case(a)",
 		"1", "-1", "1.5", "'s'", "\"s\"", "''", "1 + 1", "a + 1", "-a", "a * 2", "a div 0", "a mod 0", "1 div 0", "1 and 2", "'a' = 'a'", "1 = 1",
+		// numeric comparisons inside predicates, met with non-numeric data
+		"a[.>1]", "a[.<1]", "a[.>=1]", "a[.=1]", "a[.!=1]", "*[.>1]", "//*[.>1]", ".[a>1]", ".[b>1]", ".[b=1]", "//o[b>1]", "//o[b<=1]", "a[b>1]", "*[number(.)>1]", "a[.>'1']", "a[.>b]", "a[1>.]", "a[.+1>1]", "a[sum(../*)>1]", "a[. div 1 > 0]",
 		"a[true()]", "a[false()]", "a[b and true()]", "a[not(b)]", "a[position()]", "a[last()][1]", "a[1][1]", "a[b[c]]", "a[.=..]", "//*[.//*]", "a[count(b)]", "a[string()]", "a[1 div 0]", "a[0]", "a[-1]", "a['x']", "a[''])",
 		"", " ", "[", "]", "a[", "a]", "//", "///", "a//", "@", "a/@", "a::b", "child::", "a b", "a,b", "a=", "=a", "and", "or", "()", "(", "a |", "| a", "$a", "a[$b]", "1 2", "a/(b)", "a/(b and c)", "f()", "a:b", "a:*", "*:a", "@a:b",
 		"a[1", "a[1]]", "'unterminated", "a[.='x]", "//*[text()='1' and @k]", ".[a!='0' and b!='z']", "./.", "./..", "../..", "/..", "/.", "a/./b", ".//.",
